@@ -11,3 +11,10 @@ Definition chk_swept (tol : float) (ll ua0 : list (v3 float)) (e : list (v3 floa
   Nat.eqb (List.length r) (List.length e) &&
   forallb (fun p => let '(ua, un, us) := fst p in let '(ea, en, es) := snd p in
                     v3_closeS tol ua ea && v3_closeS tol un en && v3_closeS tol us es) (combine r e).
+
+(* the triads at the control points from the node arrays (span fractions ascending) *)
+Definition chk_cp_triads (tol : float) (xs : list float) (uas uss : list (v3 float)) (cps : list float)
+           (e : list (v3 float * v3 float * v3 float)) : bool :=
+  Nat.eqb (List.length cps) (List.length e) &&
+  forallb (fun p => let '(ua, un, us) := cp_triad xs uas uss (fst p) in let '(ea, en, es) := snd p in
+                    v3_closeS tol ua ea && v3_closeS tol un en && v3_closeS tol us es) (combine cps e).
